@@ -70,6 +70,59 @@ def writer_leaf(f, path):
     return ("none",)
 
 
+def decoder_caps(cr):
+    """the three rejections of decode_size_with_offset, found by ROLE (not by local names):
+      size   : N such that the decoded size (second field of the returned Ok tuple) >= N is an error
+      prefix : N such that a length prefix of more than N bytes is an error (a `len(..) > N` test)
+      ones   : N such that leading_ones(first byte) >= N is an error"""
+    d = cr.fn(DECODE)
+    d.status()
+    size_l = None
+    for b in d.reachable_blocks():
+        for st in d.stmts(b):
+            rv = st.get("rv", {})
+            if st["d"]["l"] == 0 and "agg" in rv and isinstance(rv["agg"][0], dict) and rv["agg"][0].get("variant") == "Ok":
+                tup = mir.op_place(rv["agg"][1][0])
+                if tup and not tup["p"]:
+                    for d_ in d.defs(tup["l"]):
+                        if d_[1] != "T" and "agg" in d.def_rvalue(d_) and d.def_rvalue(d_)["agg"][0] == "tuple":
+                            pl = mir.op_place(d.def_rvalue(d_)["agg"][1][1])
+                            if pl and not pl["p"]:
+                                size_l = pl["l"]
+    # follow plain copies back to the user variable
+    seen = set()
+    while size_l is not None and size_l not in seen and len(d.defs(size_l)) == 1 and d.defs(size_l)[0][1] != "T" \
+            and "use" in d.def_rvalue(d.defs(size_l)[0]) and mir.op_place(d.def_rvalue(d.defs(size_l)[0])["use"]) \
+            and not mir.op_place(d.def_rvalue(d.defs(size_l)[0])["use"])["p"]:
+        seen.add(size_l)
+        size_l = mir.op_place(d.def_rvalue(d.defs(size_l)[0])["use"])["l"]
+    caps = {}
+    raw = []
+    for b in sorted(d.reachable_blocks()):
+        if d.term(b)["k"] != "switch":
+            continue
+        sh = d.switch_cond(b, deep=False)
+        n = compare_norm(d.switch_cond(b))
+        be = d.bool_edges(b)
+        if not (n and be and d.is_error_block(be[0]) and len(n[0]) == 1 and n[2] == ">0"):
+            continue
+        (k, co), = n[0].items()
+        raw.append((k, co, n[1]))
+        locs = {x[2] for x in walk(sh) if x[0] in ("var", "named")}
+        copies = set(locs)
+        for l in list(locs):
+            for d_ in d.defs(l):
+                if d_[1] != "T" and "use" in d.def_rvalue(d_) and mir.op_place(d.def_rvalue(d_)["use"]):
+                    copies.add(mir.op_place(d.def_rvalue(d_)["use"])["l"])
+        if co == 1 and size_l is not None and size_l in copies:
+            caps["size"] = -n[1] + 1
+        elif co == 1 and "leading_ones" in k:
+            caps["ones"] = -n[1] + 1
+        elif co == 1 and k.startswith("len("):
+            caps["prefix"] = -n[1]
+    return d, caps, raw
+
+
 def const_added_leaf(f, path, atom):
     """for length functions: the constant added to the quantity in the returned value"""
     for b in reversed(path):
@@ -126,6 +179,36 @@ def run(ctx):
               f"{n}-byte prefix: marker has {n} leading ones, covers sizes up to 2^{7*n-1}-1, starts where the previous row ends",
               site=w.where(0), detail={"lo": hex(lo), "hi": hex(hi), "marker": hex(m) if m is not None else None, "table": table_txt})
         prev_hi = hi
+    # byte composition of every prefix written: byte i of an n-byte prefix carries bits 8(n-1-i) .. 8(n-1-i)+7 of the
+    # size (the first one OR-ed with the marker) — the decoder reads them back big-endian
+    n_arr = 0
+    for b, t in w.calls():
+        if not (t.get("raw") or "").endswith("Write::write_all"):
+            continue
+        e = strip(w.expr_op(t["args"][1]))
+        arr = None
+        for x in walk(e):
+            if x[0] == "agg" and x[1] == "array":
+                arr = x[2]
+                break
+        if arr is None:
+            continue
+        n_arr += 1
+        n = len(arr)
+        shifts = []
+        for el in arr:
+            sh = [y for y in walk(strip(el)) if y[0] == "bin" and y[1] == "Shr"]
+            amt = None
+            if len(sh) == 1:
+                c = strip(sh[0][3])
+                amt = c[1] if c[0] == "const" else None
+            elif not sh:
+                amt = 0
+            shifts.append(amt)
+        want = [8 * (n - 1 - i) for i in range(n)]
+        ck.ob("R15a", f"{WRITER}|bytes of the {n}-byte prefix", shifts == want,
+              f"the {n} prefix bytes are size >> {want} (big-endian), one each", site=w.where(b), detail={"shifts": shifts, "bytes": [show(x)[:50] for x in arr]})
+    ck.floor("prefix arrays written", n_arr, 5)
     maxn = max(wrows) if wrows else 0
     last_hi = wrows[maxn][1] if wrows else 0
     beyond = [leaf for (lo, hi), leaf in rows if lo > last_hi]
@@ -225,21 +308,13 @@ def run(ctx):
     ck.ob("R15c", f"{CANON}|single-byte", sbc == ["-value[0] +128 >0"], "a 1-byte atom with a prefix is non-canonical iff the byte is < 0x80",
           site=c.where(0), detail=sbc)
 
-    # ---- decoder caps
-    d = cr.fn(DECODE)
+    # ---- decoder caps (by role, see decoder_caps)
+    d, dcaps, caps = decoder_caps(cr)
     ck.analysed(d)
-    caps = []
-    for b in sorted(d.reachable_blocks()):
-        if d.term(b)["k"] != "switch":
-            continue
-        n = compare_norm(d.switch_cond(b))
-        be = d.bool_edges(b)
-        if n and be and d.is_error_block(be[0]) and len(n[0]) == 1 and n[2] == ">0":
-            caps.append((list(n[0].keys())[0], list(n[0].values())[0], n[1]))
-    # atom_size >= CAP  -> +atom_size -CAP+1 > 0
-    size_caps = [(-c + 1) for a, co, c in caps if "atom_size" in a and co == 1]
-    ck.ob("R15d", f"{DECODE}|size-cap", size_caps == [last_hi + 1],
-          f"decoder rejects sizes >= {last_hi + 1:#x} (the writer's last bound)", site=d.where(0), detail={"caps": caps})
-    plen_caps = [(-c) for a, co, c in caps if ("size_blob" in a or "atom_start_offset" in a) and co == 1]
+    ck.ob("R15d", f"{DECODE}|size-cap", dcaps.get("size") == last_hi + 1,
+          f"decoder rejects sizes >= {last_hi + 1:#x} (the writer's last bound)", site=d.where(0), detail={"caps": dcaps, "tests": caps})
+    plen_caps = [dcaps["prefix"]] if "prefix" in dcaps else []
+    if "ones" in dcaps:
+        plen_caps.append(dcaps["ones"] - 1)
     ck.ob("R15d", f"{DECODE}|prefix-cap", (maxn + 1) in plen_caps or any(p <= maxn + 1 and p >= maxn for p in plen_caps),
           f"decoder rejects prefixes longer than {maxn + 1} bytes", site=d.where(0), detail={"caps": caps, "accepted_max": plen_caps})
